@@ -109,6 +109,8 @@ pub struct Profile {
     pub shape: Shape,
     pub sched_bytes: usize,
     pub keep_going_after_early_destroy: bool,
+    /// share (in percent) of a caller's program segments that are a whole future lifecycle (create, poll / wake / queue behind, finish)
+    pub lifecycle_pct: u32,
 }
 
 impl Default for Profile {
@@ -133,6 +135,7 @@ impl Default for Profile {
             shape: Shape::Plain,
             sched_bytes: 300,
             keep_going_after_early_destroy: false,
+            lifecycle_pct: 12,
         }
     }
 }
@@ -287,8 +290,59 @@ fn producers_strategy(p: &Profile) -> BoxedStrategy<Vec<Vec<POp>>> {
     vec(vec(pop, 0..=5), p.streams.1 as usize).boxed()
 }
 
+/// One future taken through its life by its owner: created with a body that waits for a gate, then polled by hand, woken,
+/// given company in the queue, and finally awaited, waited for synchronously, dropped, detached or just left. The raw slot,
+/// object and gate values are shared by the whole chain, so normalisation maps them to the same slot, object and gate.
+fn lifecycle(p: &Profile) -> BoxedStrategy<Vec<Op>> {
+    let w = p.opw.clone();
+    let u8s = any::<u8>();
+    let small_fut = leaf_steps(&p.stepw, (0, 2), true);
+    let small_plain = leaf_steps(&p.stepw, (0, 1), false);
+    let kind = union(vec![(w.futdesync.max(1), Just(0u8).boxed()), (w.futsync, Just(1u8).boxed()), (w.after, Just(2u8).boxed())]);
+    let mid = (0u8..11, small_plain.clone()).boxed();
+    let term = prop_oneof![4 => Just(0u8), 3 => Just(1u8), 2 => Just(2u8), 1 => Just(3u8), 1 => Just(4u8)];
+    ((u8s, u8s, u8s), kind, (small_fut.clone(), small_fut, small_plain), vec(mid, 0..=4), term)
+        .prop_map(|((o, slot, g), kind, (pre, post, plain), mids, term)| {
+            let mut out = vec![];
+            let mut body = pre;
+            body.push(Step::AwaitGate { g });
+            body.extend(post);
+            out.push(match kind {
+                0 => Op::FutDesync { o, body, slot, id: 0 },
+                1 => Op::FutSync { o, body, slot, id: 0 },
+                _ => Op::After { o, g, body: plain, slot, id: 0 },
+            });
+            for (m, b) in mids {
+                out.push(match m {
+                    0..=2 => Op::PollOnce { slot },
+                    3..=5 => Op::OpenGate { g },
+                    6..=7 => Op::Yield,
+                    8..=9 => Op::Desync { o, body: b, id: 0 },
+                    _ => Op::Rewake { g },
+                });
+            }
+            match term {
+                0 => out.push(Op::Await { slot }),
+                1 => out.push(Op::SyncWait { slot }),
+                2 => out.push(Op::DropFut { slot }),
+                3 => out.push(Op::Detach { slot }),
+                _ => {}
+            }
+            out
+        })
+        .boxed()
+}
+
 pub fn phase_strategy(p: &Profile) -> BoxedStrategy<Phase> {
-    let callers = vec(vec(op_strategy(p), p.ops.0..=p.ops.1), p.callers.0..=p.callers.1);
+    let w = &p.opw;
+    let program = if p.lifecycle_pct > 0 && w.pollonce > 0 && w.futdesync + w.futsync + w.after > 0 {
+        let segment = union(vec![(100 - p.lifecycle_pct.min(99), op_strategy(p).prop_map(|op| vec![op]).boxed()), (p.lifecycle_pct, lifecycle(p))]);
+        let max = p.ops.1;
+        vec(segment, p.ops.0..=p.ops.1).prop_map(move |segs| { let mut v: Vec<Op> = segs.into_iter().flatten().collect(); v.truncate(max + 6); v }).boxed()
+    } else {
+        vec(op_strategy(p), p.ops.0..=p.ops.1).boxed()
+    };
+    let callers = vec(program, p.callers.0..=p.callers.1);
     (callers, wakers_strategy(p), producers_strategy(p)).prop_map(|(callers, wakers, producers)| Phase { callers, wakers, producers, ..Default::default() }).boxed()
 }
 
